@@ -221,7 +221,7 @@ def _typ(t):
     return {} if t in (None, "any") else {"type": TYPES[t]}
 
 
-def build_ns_class(name, members):
+def build_ns_class(name, members, standalone=None):
     ns = {"__annotations__": {}}
     for m in members:
         k = m["kind"]
@@ -246,9 +246,12 @@ def build_ns_class(name, members):
                 a = a >> TRANSFORMS[tf]
             ns[m["name"]] = a
         elif k == "sub":
-            ns[m["name"]] = build_ns_class(m["name"], m["members"])
+            ns[m["name"]] = build_ns_class(m["name"], m["members"], standalone)
         elif k == "sub_renamed":
-            ns[m["name"]] = Option.namespace(m["rename"])(build_ns_class(m["name"], m["members"]))
+            ns[m["name"]] = Option.namespace(m["rename"])(build_ns_class(m["name"], m["members"], standalone))
+            if standalone is not None:
+                # a namespace in its own right (keys start at its own name) that is also mounted under a parent
+                standalone.append((m["rename"], m["members"], ns[m["name"]]))
     return type(name, (), ns)
 
 
@@ -305,18 +308,32 @@ def with_type_log(fn):
 def check_namespace(case, ctx):
     members = case["members"]
     top = "NS"
+    standalone = []
     with warnings.catch_warnings():
         warnings.simplefilter("ignore")
-        cls = build_ns_class(top, members)
+        cls = build_ns_class(top, members, standalone)
         ns = Option.namespace(cls) if not case["rename"] else Option.namespace(case["rename"])(cls)
     prefix = case["rename"] or top
     labels = set()
     provided = defaulted = 0
+    # every mount of the member tables: the generated namespace itself, and each renamed sub-namespace used on its own
+    # (its keys then start at its own name); the order in which the mounts are first looked up is part of the case
+    mounts = [(prefix, members, ns)] + standalone
+    order = case.get("mount_order", 0)
+    if len(mounts) > 1:
+        labels.add("group-mounted-twice")
+        mounts = mounts[order % len(mounts):] + mounts[:order % len(mounts)]
     for flat in case["assignments"]:
         o = U.nest({f"{prefix}.{k}": v for k, v in flat["ns"].items()})
         o = U.overlay(o, flat["outer"])
-        for path, eq, key, plain in equivalents(prefix, members):
-            member = ns
+        for sa_prefix, sa_members, sa_ns in standalone:
+            # the same assignment, addressed to the standalone mount as well
+            sub = U.dotted_get(o, _find_prefix(prefix, members, sa_members))
+            if isinstance(sub, dict):
+                o = U.overlay(o, {sa_prefix: copy.deepcopy(sub)}) if sa_prefix not in o else o
+        for mprefix, mmembers, mns in mounts:
+          for path, eq, key, plain in equivalents(mprefix, mmembers):
+            member = mns
             for seg in path:
                 member = getattr(member, seg)
             for opname in ("evaluate", "validate", "keys", "explain"):
@@ -325,8 +342,9 @@ def check_namespace(case, ctx):
                     got, tg = with_type_log(lambda: getattr(member, opname)(o))
                     exp, te = with_type_log(lambda: getattr(eq, opname)(o))
                 if got.ok != exp.ok or (got.ok and got.value != exp.value) or (not got.ok and got.fail != exp.fail):
-                    raise Violation("member-differs-from-option", f"{'.'.join(path)} vs Option({key!r}...): {opname}({o}) gives {got!r} but the "
-                                                                  f"equivalent option gives {exp!r}; member spec {[m for m in members if m['name'] == path[0]]}")
+                    raise Violation("member-differs-from-option", f"{'.'.join(path)} of namespace {mprefix!r} vs Option({key!r}...): {opname}({o}) gives {got!r} but the "
+                                                                  f"equivalent option gives {exp!r}; member spec {[m for m in mmembers if m['name'] == path[0]]}; "
+                                                                  f"mounts looked up in the order {[m[0] for m in mounts]}")
                 if tg != te:
                     raise Violation("type-request-differs", f"{'.'.join(path)}: {opname}({o}) issued type checks {tg} but the equivalent option {te}")
             if U.dotted_has(o, key):
@@ -355,6 +373,19 @@ def check_namespace(case, ctx):
     ctx.done(case, provided > 0 and defaulted > 0, labels | {"kind:" + m["kind"] for m in members})
 
 
+def _find_prefix(prefix, members, target):
+    """Full key of the sub-table `target` inside the table mounted at `prefix`."""
+    for m in members:
+        if m["kind"] in ("sub", "sub_renamed"):
+            p = f"{prefix}.{m.get('rename', m['name'])}"
+            if m["members"] is target:
+                return p
+            r = _find_prefix(p, m["members"], target)
+            if r:
+                return r
+    return None
+
+
 def flat_member_keys(members, prefix=""):
     out = []
     for m in members:
@@ -377,7 +408,8 @@ def namespace_cases(draw):
                 ns[k] = draw(st.sampled_from([None, 0, False, "", "a", 1, 2, [1], "x{A}", 5]))
         outer = {"A": draw(st.sampled_from([1, "z"]))} if draw(st.booleans()) else {}
         assignments.append({"ns": ns, "outer": outer})
-    return {"members": members, "assignments": assignments, "rename": draw(st.sampled_from([None, None, "MY-PKG"]))}
+    return {"members": members, "assignments": assignments, "rename": draw(st.sampled_from([None, None, "MY-PKG"])),
+            "mount_order": draw(st.integers(0, 3))}
 
 
 # ---- Option.set --------------------------------------------------------------------------------------------------
